@@ -1,4 +1,5 @@
 """C04 — stop requests reach running children; completion never outlives a callback."""
+<<<<<<< HEAD
 from ..evt import EventPart
 from ..runner import run_check
 
@@ -33,3 +34,45 @@ def run(tier, seed, replay=None):
         explanation="Theorems (Props/C04): stop_invariant_at_start + stop_invariant_always (the invariant StopInv holds after every event sequence, for every expression and script); "
                     "reading lemmas stopped_leaf_notified, adaptor_forwards_stop, unstoppable_hides_stop, when_all_stops_children, stop_when_stops_other, successor_starts_stopped. "
                     "Deregistration-before-completion is decided on the implementation by the late-stop oracle under ASan.")
+=======
+from ..atomic import AtomicPart
+from ..runner import run_check
+
+# schedule level (harness/rt/scn_c0104.cpp; Lean configurations of the same name in Proto/WhenAll.lean and
+# Proto/StopWhen.lean).  The remaining scenarios of that file run under C01.
+WA_SCENARIOS = ["wa2_err_stop", "wa2_done_inl", "wa2_err_inl", "wa2_stop_inl", "wa2_errinl_stop", "wa3_stop_inl", "wa3_mix", "war3_mix"]
+SW_SCENARIOS = ["sw_stop_inl", "sw_trg_stop", "sw_stop"]
+QUICK = dict(preemptions=2, max_execs=1000)
+THOROUGH = dict(preemptions=3, max_execs=60000)
+RANDOM = (300, 5000)
+
+
+def atomic_parts():
+    return [
+        AtomicPart("whenall", "scn_c0104.cpp", ["inplace_stop_token.cpp"], "whenall", WA_SCENARIOS,
+                   quick=QUICK, thorough=THOROUGH, random_execs=RANDOM),
+        AtomicPart("stopwhen", "scn_c0104.cpp", ["inplace_stop_token.cpp"], "stopwhen", SW_SCENARIOS,
+                   quick=QUICK, thorough=THOROUGH, random_execs=RANDOM),
+    ]
+
+
+def run(tier, seed, replay=None):
+    parts = atomic_parts()
+    return run_check(
+        "C04", tier, seed, ["UnifexModel.Props.C04_Atomic", "UnifexModel.Props.C04_AtomicInst"], parts,
+        rule="(schedule level) the real when_all/when_all_range/stop_when with manual leaves (each leaf has a stop callback on the token it was given and may complete from inside it), "
+             "completer threads and a thread requesting stop on the root receiver's source, under the controlled scheduler (DFS with preemption bound, random and PCT walks); "
+             "the root receiver's token is a counting wrapper around inplace_stop_token: monitors = composite's stop callback still registered / running on another thread when the root "
+             "receiver is signalled, callback invoked after the op-state was destroyed, op-state storage (poisoned 0xA5 on completion) written later, a running leaf that does not see "
+             "stop_requested() after the first failure returned / after request_stop() returned; a case = one distinct observable history, non-trivial = admitted by the Lean model",
+        assumptions=["sequentially consistent atomics (memory orders ignored)", "the operation has been started before the threads race (stop before/during start(): event level)",
+                     "inplace_stop_source behaves as proved in C03 (deregistration waits for a callback running on another thread, never on its own thread)",
+                     "parametric theorems (all N, all schedules) for when_all/when_all_range; stop_when per instance",
+                     "stop_when's cancel_callback path signals the receiver while stopCallback_ is still engaged (dequeued, executing on the signalling thread): modelled as it is "
+                     "(theorem stop_when_cancel_path_signals_with_callback_alive), shown as 'cb-alive' in histories, not counted as a violation"],
+        trusted_extra=["harness/rt (cooperative scheduler, __tsan_* shim)", "Core/Admit.lean trace-inclusion test", "g++ 12 -fsanitize=thread instrumentation"],
+        explanation="Props/C04_Atomic, when_all/when_all_range for ALL N >= 1, all configurations, all schedules (invariant induction): no_callback_registered_at_delivery, "
+                    "destructed_before_signal, no_touch_after_delivery, failure_stops_running_siblings, failed_iff_winner, notified_when_notifier_done, stopped_at_delivery_if_failed, "
+                    "external_stop_reaches_children, stop_callback_requests_own_source, stop_when_cancel_path_signals_with_callback_alive (witness); Props/C04_AtomicInst, instances by kernel reflection (also deadlock-freedom of the blocking deregistrations): wa2_done_inl, "
+                    "wa2_err_inl, wa2_stop_inl, wa2_errinl_stop, sw_stop_inl, sw_trg_stop. Tie: trace inclusion of the real executions in the model configurations of the same name.")
+>>>>>>> wt_c0104
